@@ -1,9 +1,11 @@
 (* Model of the volume server's range handling (C32):
-     weed/server/volume_server_handlers_helper.go  parseRange, sumRangesSize, httpRange.contentRange
-     weed/server/common.go                         processRangeRequest
-     weed/server/volume_server_handlers_read.go    writeResponseContent, the gzip negotiation of GetOrHeadHandler
-   Executable definitions only; proofs are in proof/HttpRangeProofs.v.
-   The model is faithful to the code as it is (including its defects). *)
+     weed/server/volume_server_handlers_helper.go  parseRange, sumRangesSize, rangesMIMESize, httpRange.contentRange
+     weed/server/common.go                         processRangeRequest, adjustHeaderContentDisposition
+     weed/server/volume_server_handlers_read.go    writeResponseContent, the gzip negotiation and the
+                                                   name / mime handling of GetOrHeadHandler
+   Executable definitions only; proofs are in proof/HttpRangeProofs.v, proof/HttpRangeParseProofs.v.
+   The model is faithful to the code as it is (including its defects).
+   NOTE: rspec / parse_spec / ref_spec are also used by the S3 model (C28). *)
 From Coq Require Import List NArith ZArith Bool String Ascii.
 Import ListNotations.
 Local Open Scope Z_scope.
@@ -15,29 +17,61 @@ Definition int64_max : Z := 2 ^ 63 - 1.
 Definition wrap64 (z : Z) : Z := (z + 2 ^ 63) mod 2 ^ 64 - 2 ^ 63.
 
 (* ------------------------------------------------------------------ *)
-(* ASCII string helpers (headers are ASCII; see the assumptions of C32) *)
+(* byte strings (a Coq [string] is a sequence of bytes; header values may hold any byte) *)
 Definition ch (n : nat) : ascii := ascii_of_nat n.
 Definition c_comma : ascii := ","%char.
 Definition c_dash : ascii := "-"%char.
 Definition c_plus : ascii := "+"%char.
 Definition c_semi : ascii := ";"%char.
+Definition c_zero : ascii := "0"%char.
 
-(* unicode.IsSpace restricted to ASCII: '\t' '\n' '\v' '\f' '\r' ' ' *)
+(* unicode.IsSpace on one byte: '\t' '\n' '\v' '\f' '\r' ' ' *)
 Definition is_space (c : ascii) : bool :=
   let n := nat_of_ascii c in Nat.eqb n 32 || (Nat.leb 9 n && Nat.leb n 13).
 
 Definition str_empty (s : string) : bool := match s with EmptyString => true | _ => false end.
 
+(* the white-space runes above U+007F in UTF-8 (unicode.IsSpace): U+0085 U+00A0 U+1680
+   U+2000..U+200A U+2028 U+2029 U+202F U+205F U+3000 *)
+Definition bs (l : list nat) : string := fold_right (fun n s => String (ascii_of_nat n) s) EmptyString l.
+Definition ws_multi : list string :=
+  [bs [194; 133]; bs [194; 160]; bs [225; 154; 128];
+   bs [226; 128; 128]; bs [226; 128; 129]; bs [226; 128; 130]; bs [226; 128; 131]; bs [226; 128; 132];
+   bs [226; 128; 133]; bs [226; 128; 134]; bs [226; 128; 135]; bs [226; 128; 136]; bs [226; 128; 137];
+   bs [226; 128; 138]; bs [226; 128; 168]; bs [226; 128; 169]; bs [226; 128; 175]; bs [226; 129; 159];
+   bs [227; 128; 128]]%nat.
+Definition in_multi (u : string) : bool := existsb (String.eqb u) ws_multi.
+(* u is exactly one white-space rune *)
+Definition is_space_rune (u : string) : bool :=
+  match u with
+  | String c EmptyString => is_space c
+  | _ => in_multi u
+  end.
+
+(* strings.TrimLeftFunc(s, unicode.IsSpace): an invalid or incomplete UTF-8 sequence is not a space *)
 Fixpoint ltrim (s : string) : string :=
   match s with
   | EmptyString => EmptyString
-  | String c s' => if is_space c then ltrim s' else s
+  | String c1 s1 =>
+      if is_space c1 then ltrim s1 else
+      match s1 with
+      | EmptyString => s
+      | String c2 s2 =>
+          if in_multi (String c1 (String c2 EmptyString)) then ltrim s2 else
+          match s2 with
+          | EmptyString => s
+          | String c3 s3 =>
+              if in_multi (String c1 (String c2 (String c3 EmptyString))) then ltrim s3 else s
+          end
+      end
   end.
+(* strings.TrimRightFunc(s, unicode.IsSpace): the trailing white-space runes are removed one by
+   one (utf8.DecodeLastRune finds the rune that ENDS at the end of the string) *)
 Fixpoint rtrim (s : string) : string :=
   match s with
   | EmptyString => EmptyString
-  | String c s' => let t := rtrim s' in
-                   if is_space c && str_empty t then EmptyString else String c t
+  | String c s' => let u := String c (rtrim s') in
+                   if is_space_rune u then EmptyString else u
   end.
 (* strings.TrimSpace *)
 Definition trim (s : string) : string := rtrim (ltrim s).
@@ -81,6 +115,8 @@ Fixpoint contains (sub s : string) {struct s} : bool :=
        | EmptyString => false
        | String _ s' => contains sub s'
        end.
+
+Definition slen (s : string) : Z := Z.of_nat (String.length s).
 
 (* ------------------------------------------------------------------ *)
 (* strconv.ParseInt(s, 10, 64): optional sign, at least one digit, only digits,
@@ -178,6 +214,7 @@ Inductive rspec :=
 | RFrom (a : N)          (* "a-"  *)
 | RSuffix (n : N).       (* "-n"  *)
 
+(* the arithmetic of parseRange on numbers that ParseInt could read (also used by C28) *)
 Definition parse_spec (sp : rspec) (size : Z) : option range :=
   match sp with
   | RSuffix n =>
@@ -195,11 +232,22 @@ Definition parse_spec (sp : rspec) (size : Z) : option range :=
       else let j := if j >=? size then size - 1 else j in Some (i, j - i + 1)
   end.
 
+(* a number that strconv.ParseInt(_, 10, 64) refuses: the whole header is "invalid range" *)
+Definition num_big (n : N) : bool := Z.of_N n >? int64_max.
+Definition spec_big (sp : rspec) : bool :=
+  match sp with
+  | RClosed a b => num_big a || num_big b
+  | RFrom a => num_big a
+  | RSuffix n => num_big n
+  end.
+Definition parse_spec64 (sp : rspec) (size : Z) : option range :=
+  if spec_big sp then None else parse_spec sp size.
+
 Fixpoint parse_specs (sps : list rspec) (size : Z) : option (list range) :=
   match sps with
   | [] => Some []
   | sp :: rest =>
-      match parse_spec sp size with
+      match parse_spec64 sp size with
       | None => None
       | Some r => match parse_specs rest size with
                   | None => None
@@ -233,6 +281,80 @@ Fixpoint join_comma (l : list string) : string :=
 Definition print_header (sps : list rspec) : string :=
   append "bytes=" (join_comma (map print_spec sps)).
 
+(* ---- spellings: every text parseRange reads as a given list of specs ----
+   optional white space (any unicode.IsSpace rune) around an element and around its '-',
+   an optional '+' and any number of leading zeros before a number, empty elements. *)
+Definition ws := list string.                       (* each element: ONE white-space rune *)
+Definition ws_ok (w : ws) : bool := forallb is_space_rune w.
+Definition ws_str (w : ws) : string := fold_right append EmptyString w.
+
+Record numfmt := { nf_plus : bool; nf_zeros : nat }.
+Fixpoint zeros (k : nat) (s : string) : string :=
+  match k with O => s | S k' => String c_zero (zeros k' s) end.
+Definition render_num (f : numfmt) (n : N) : string :=
+  let body := zeros (nf_zeros f) (print_N n) in
+  if nf_plus f then String c_plus body else body.
+
+Inductive item :=
+| IBlank (w : ws)                                                        (* "  "       *)
+| IClosed (w1 : ws) (fa : numfmt) (a : N) (w2 w3 : ws) (fb : numfmt) (b : N) (w4 : ws)   (* " a - b " *)
+| IFrom (w1 : ws) (fa : numfmt) (a : N) (w2 w3 : ws)                     (* " a - "    *)
+| ISuffix (w1 w3 : ws) (fn : numfmt) (n : N) (w4 : ws).                  (* " - n "    *)
+
+Definition render_item (it : item) : string :=
+  match it with
+  | IBlank w => ws_str w
+  | IClosed w1 fa a w2 w3 fb b w4 =>       (* w1 ((a w2) - (w3 b)) w4 *)
+      append (ws_str w1)
+        (append (append (append (render_num fa a) (ws_str w2))
+                        (String c_dash (append (ws_str w3) (render_num fb b))))
+                (ws_str w4))
+  | IFrom w1 fa a w2 w3 =>                 (* w1 ((a w2) -) w3 *)
+      append (ws_str w1)
+        (append (append (append (render_num fa a) (ws_str w2)) (String c_dash EmptyString)) (ws_str w3))
+  | ISuffix w1 w3 fn n w4 =>               (* w1 (- (w3 n)) w4 *)
+      append (ws_str w1) (append (String c_dash (append (ws_str w3) (render_num fn n))) (ws_str w4))
+  end.
+Definition item_ok (it : item) : bool :=
+  match it with
+  | IBlank w => ws_ok w
+  | IClosed w1 _ _ w2 w3 _ _ w4 => ws_ok w1 && ws_ok w2 && ws_ok w3 && ws_ok w4
+  | IFrom w1 _ _ w2 w3 => ws_ok w1 && ws_ok w2 && ws_ok w3
+  | ISuffix w1 w3 _ _ w4 => ws_ok w1 && ws_ok w3 && ws_ok w4
+  end.
+Definition item_spec (it : item) : option rspec :=
+  match it with
+  | IBlank _ => None
+  | IClosed _ _ a _ _ _ b _ => Some (RClosed a b)
+  | IFrom _ _ a _ _ => Some (RFrom a)
+  | ISuffix _ _ _ n _ => Some (RSuffix n)
+  end.
+Fixpoint specs_of (its : list item) : list rspec :=
+  match its with
+  | [] => []
+  | it :: rest => match item_spec it with
+                  | Some sp => sp :: specs_of rest
+                  | None => specs_of rest
+                  end
+  end.
+Definition items_ok (its : list item) : bool := forallb item_ok its.
+Definition render_header (its : list item) : string :=
+  append "bytes=" (join_comma (map render_item its)).
+
+(* the canonical spelling *)
+Definition nf0 : numfmt := {| nf_plus := false; nf_zeros := 0 |}.
+Definition canon_item (sp : rspec) : item :=
+  match sp with
+  | RClosed a b => IClosed [] nf0 a [] [] nf0 b []
+  | RFrom a => IFrom [] nf0 a [] []
+  | RSuffix n => ISuffix [] [] nf0 n []
+  end.
+Definition canon (sps : list rspec) : list item := map canon_item sps.
+
+(* hdr is a spelling of the specs sps *)
+Definition renders (sps : list rspec) (hdr : string) : Prop :=
+  exists its, items_ok its = true /\ specs_of its = sps /\ render_header its = hdr.
+
 (* ------------------------------------------------------------------ *)
 (* processRangeRequest *)
 
@@ -262,54 +384,118 @@ Definition crange := (Z * Z * Z)%type.
 Definition content_range (r : range) (size : Z) : crange :=
   (fst r, wrap64 (fst r + snd r - 1), size).      (* int64 arithmetic *)
 
+(* ---- the size of the multipart/byteranges encoding (rangesMIMESize, mime/multipart.Writer) ---- *)
+Fixpoint ndigits (fuel : nat) (n : Z) : Z :=
+  match fuel with
+  | O => 1
+  | S f => if n <? 10 then 1 else 1 + ndigits f (n / 10)
+  end.
+(* len(fmt.Sprintf("%d", z)) for |z| < 10^21 *)
+Definition dec_len (z : Z) : Z := if z <? 0 then 1 + ndigits 20 (- z) else ndigits 20 z.
+Definition boundary_len : Z := 60.       (* mime/multipart randomBoundary: 30 random bytes in hex *)
+(* "bytes a-b/s" *)
+Definition cr_len (c : crange) : Z :=
+  let '(a, b, s) := c in 6 + dec_len a + 1 + dec_len b + 1 + dec_len s.
+(* ["\r\n"] "--" boundary "\r\n" "Content-Range: " cr "\r\n" "Content-Type: " ct "\r\n" "\r\n" *)
+Definition part_hdr_len (first : bool) (c : crange) (ctlen : Z) : Z :=
+  (if first then 0 else 2) + 2 + boundary_len + 2 + (15 + cr_len c + 2) + (14 + ctlen + 2) + 2.
+(* "\r\n--" boundary "--\r\n" *)
+Definition closing_len : Z := boundary_len + 8.
+Fixpoint mp_hdrs (size ctlen : Z) (first : bool) (rs : list range) : Z :=
+  match rs with
+  | [] => 0
+  | ra :: rest => part_hdr_len first (content_range ra size) ctlen + mp_hdrs size ctlen false rest
+  end.
+Definition mp_overhead (size ctlen : Z) (rs : list range) : Z := mp_hdrs size ctlen true rs + closing_len.
+
+(* the goroutine that writes the parts into the pipe: (parts completed, bytes produced before
+   the closing delimiter, aborted by a writeFn error) *)
+Fixpoint mp_write (d : blob) (ctlen : Z) (first : bool) (rs : list range) : list (crange * blob) * Z * bool :=
+  match rs with
+  | [] => ([], 0, false)
+  | ra :: rest =>
+      let cr := content_range ra (blen d) in
+      let h := part_hdr_len first cr ctlen in
+      let '(out, e) := write_fn d (fst ra) (snd ra) in
+      if (e =? 0)%N then
+        let '(ps, n, ab) := mp_write d ctlen false rest in
+        ((cr, out) :: ps, h + blen out + n, ab)
+      else ([], h + blen out, true)
+  end.
+
 Inductive body :=
-| Plain (b : blob) (werr : N)                 (* bytes written; writeFn error kind (0 = none) *)
-| Multipart (parts : list (crange * blob)).   (* multipart/byteranges parts in order *)
+| Plain (b : blob) (err : N)
+    (* bytes written, then the class of the error text that follows them:
+       0 none; after a 206: 1 = "bytes.Reader.Seek: negative position", 2 = "EOF";
+       on a 416 (b = []): 3 = "invalid range", 4 = "Out of Range" *)
+| Multipart (pct : string) (parts : list (crange * blob)) (tail : N) (rawlen : Z).
+    (* multipart/byteranges body of rawlen bytes; tail 0: a complete encoding of the parts
+       (each with Content-Type pct) and nothing else, or nothing at all (rawlen = 0);
+       otherwise parts = [] and tail 1: an incomplete encoding followed by "Internal Error",
+       tail 2: an encoding cut short *)
 
 Record response := {
   r_status : N;                   (* 200 (implicit), 206, 416 *)
+  r_ct : string;                  (* Content-Type header ("" = not set; multipart: without the boundary parameter) *)
   r_cr : option crange;           (* Content-Range response header *)
-  r_cl : option Z;                (* Content-Length header set by the handler; for multipart: 0 stands for "equals the encoded size" *)
+  r_cl : option Z;                (* Content-Length header as set by the handler *)
   r_body : body
 }.
 
-(* enc: a Content-Encoding header has already been set by the caller *)
-Definition process_parsed (pr : option (list range)) (d : blob) (enc : bool) : response :=
+Definition ct_error : string := "text/plain; charset=utf-8".     (* http.Error *)
+Definition ct_multipart : string := "multipart/byteranges".
+Definition internal_error_len : Z := 15.                           (* "Internal Error\n" *)
+
+Definition resp_416 (e : N) : response :=
+  {| r_status := 416; r_ct := ct_error; r_cr := None; r_cl := None; r_body := Plain [] e |}.
+(* "return" before anything is written: an implicit 200 without Content-Length *)
+Definition resp_nothing (ct : string) : response :=
+  {| r_status := 200; r_ct := ct; r_cr := None; r_cl := None; r_body := Plain [] 0 |}.
+
+(* enc: a Content-Encoding header has already been set by the caller; ct: the mime type *)
+Definition process_parsed (pr : option (list range)) (d : blob) (enc : bool) (ct : string) : response :=
   let size := blen d in
   match pr with
-  | None => {| r_status := 416; r_cr := None; r_cl := None; r_body := Plain [] 0 |}
+  | None => resp_416 3
   | Some rs =>
-      if sum_ranges rs >? size then
-        (* "Ignore the range request": returns with nothing written *)
-        {| r_status := 200; r_cr := None; r_cl := None; r_body := Plain [] 0 |}
+      if sum_ranges rs >? size then resp_nothing ct    (* "Ignore the range request" *)
       else match rs with
-      | [] => {| r_status := 200; r_cr := None; r_cl := None; r_body := Plain [] 0 |}
+      | [] => resp_nothing ct
       | [ra] =>
           let '(out, e) := write_fn d (fst ra) (snd ra) in
-          {| r_status := 206; r_cr := Some (content_range ra size); r_cl := Some (snd ra);
+          {| r_status := 206; r_ct := ct; r_cr := Some (content_range ra size); r_cl := Some (snd ra);
              r_body := Plain out e |}
       | _ =>
-          if existsb (fun ra => fst ra >? size) rs then
-            {| r_status := 416; r_cr := None; r_cl := None; r_body := Plain [] 0 |}
+          if existsb (fun ra : range => fst ra >? size) rs then resp_416 4
           else
-            {| r_status := 206; r_cr := None; r_cl := if enc then None else Some 0;
-               r_body := Multipart (map (fun ra => (content_range ra size, fst (write_fn d (fst ra) (snd ra)))) rs) |}
+            let ctlen := slen ct in
+            (* sendSize := rangesMIMESize(...), int64 *)
+            let send := wrap64 (sum_ranges rs + mp_overhead size ctlen rs) in
+            let '(ps, n, ab) := mp_write d ctlen true rs in
+            let produced := if ab then n else n + closing_len in
+            {| r_status := 206; r_ct := ct_multipart; r_cr := None;
+               r_cl := if enc then None else Some send;
+               (* io.CopyN(w, pipe, sendSize); on a short read "Internal Error" is appended *)
+               r_body := if send <=? 0 then Multipart EmptyString [] 0 0   (* nothing sent: no part type either *)
+                         else if negb ab && (send =? produced) then Multipart ct ps 0 send
+                         else if send <=? produced then Multipart ct [] 2 send
+                         else Multipart ct [] 1 (produced + internal_error_len) |}
       end
   end.
 
 (* range = the Range request header, "" when absent *)
-Definition process_range (hdr : string) (d : blob) (enc : bool) : response :=
+Definition process_range (hdr : string) (d : blob) (enc : bool) (ct : string) : response :=
   if str_empty hdr then
-    {| r_status := 200; r_cr := None; r_cl := Some (blen d); r_body := Plain d 0 |}
-  else process_parsed (parse_range hdr (blen d)) d enc.
+    {| r_status := 200; r_ct := ct; r_cr := None; r_cl := Some (blen d); r_body := Plain d 0 |}
+  else process_parsed (parse_range hdr (blen d)) d enc ct.
 
-(* writeResponseContent *)
-Definition write_response_content (head : bool) (hdr : string) (d : blob) (enc : bool) : response :=
-  if head then {| r_status := 200; r_cr := None; r_cl := Some (blen d); r_body := Plain [] 0 |}
-  else process_range hdr d enc.
+(* writeResponseContent (after the headers common to every answer) *)
+Definition write_response_content (head : bool) (hdr : string) (d : blob) (enc : bool) (ct : string) : response :=
+  if head then {| r_status := 200; r_ct := ct; r_cr := None; r_cl := Some (blen d); r_body := Plain [] 0 |}
+  else process_range hdr d enc ct.
 
 (* ------------------------------------------------------------------ *)
-(* gzip negotiation in GetOrHeadHandler (image resize and chunk manifests excluded) *)
+(* GetOrHeadHandler (image resize and chunk manifests excluded) *)
 
 (* util.IsGzippedContent *)
 Definition is_gzipped (d : blob) : bool :=
@@ -324,10 +510,16 @@ Definition accept_has_gzip (ae : string) : bool := contains "gzip" ae.
 Record stored := {
   st_flag : bool;      (* needle flag IsCompressed *)
   st_data : blob;      (* n.Data as stored *)
-  st_plain : blob      (* ORACLE: ungzipData(st_data) when is_gzipped st_data *)
+  st_plain : blob;     (* ORACLE: the bytes util.DecompressData(st_data) returns when is_gzipped st_data
+                          (nil or a prefix of the content when the stream is corrupt) *)
+  st_gzok : bool;      (* ORACLE: util.DecompressData(st_data) returned no error *)
+  st_name : string;    (* n.Name ("" = none) *)
+  st_mime : string;    (* n.Mime ("" = none) *)
+  st_extmime : string  (* ORACLE: mime.TypeByExtension(filepath.Ext(n.Name)), "" when there is no extension *)
 }.
 
-(* the bytes served ("representation") and whether Content-Encoding: gzip is set *)
+(* the bytes served ("representation") and whether Content-Encoding: gzip is set;
+   a decompression error is logged and otherwise ignored *)
 Definition negotiate (s : stored) (ae : string) : blob * bool :=
   if st_flag s then
     if accept_has_gzip ae && is_gzipped (st_data s) then (st_data s, true)
@@ -335,11 +527,37 @@ Definition negotiate (s : stored) (ae : string) : blob * bool :=
     else (st_data s, false)                                   (* UnsupportedCompression: data kept *)
   else (st_data s, false).
 
-Record full_response := { f_resp : response; f_gzip : bool }.
+(* the mime type handed to processRangeRequest *)
+Definition has_prefix (p s : string) : bool := match strip_prefix p s with Some _ => true | None => false end.
+Definition mime_of (s : stored) : string :=
+  let mt := if has_prefix "application/octet-stream" (st_mime s) then EmptyString else st_mime s in
+  if str_empty mt then st_extmime s else mt.
 
-Definition get_or_head (head : bool) (s : stored) (ae hdr : string) : full_response :=
+(* fileNameEscaper: \ -> \\ , " -> \" *)
+Fixpoint escape_name (s : string) : string :=
+  match s with
+  | EmptyString => EmptyString
+  | String c s' =>
+      if Ascii.eqb c "\"%char || Ascii.eqb c """"%char then String "\"%char (String c (escape_name s'))
+      else String c (escape_name s')
+  end.
+(* adjustHeaderContentDisposition; dl: the request has ?dl=true *)
+Definition content_disposition (name : string) (dl : bool) : string :=
+  if str_empty name then EmptyString
+  else append (if dl then "attachment" else "inline")
+         (append "; filename=""" (append (escape_name name) """")).
+
+Record full_response := {
+  f_resp : response;
+  f_gzip : bool;          (* Content-Encoding: gzip *)
+  f_cdisp : string;       (* Content-Disposition ("" = not set) *)
+  f_ar : bool             (* Accept-Ranges: bytes *)
+}.
+
+Definition get_or_head (head dl : bool) (s : stored) (ae hdr : string) : full_response :=
   let '(rep, enc) := negotiate s ae in
-  {| f_resp := write_response_content head hdr rep enc; f_gzip := enc |}.
+  {| f_resp := write_response_content head hdr rep enc (mime_of s); f_gzip := enc;
+     f_cdisp := content_disposition (st_name s) dl; f_ar := true |}.
 
 (* ------------------------------------------------------------------ *)
 (* Reference semantics (RFC 7233 / RFC 7231) — the property's oracle *)
@@ -366,6 +584,8 @@ Fixpoint ref_ranges (sps : list rspec) (size : Z) : list range :=
                   end
   end.
 
+Definition is_nil {A} (l : list A) : bool := match l with [] => true | _ => false end.
+
 Fixpoint blob_eqb (a b : blob) : bool :=
   match a, b with
   | [], [] => true
@@ -388,25 +608,38 @@ Definition oz_eqb (a b : option Z) : bool :=
 Definition body_eqb (a b : body) : bool :=
   match a, b with
   | Plain x e, Plain y f => blob_eqb x y && (e =? f)%N
-  | Multipart x, Multipart y => parts_eqb x y
+  | Multipart c x t n, Multipart c' y t' n' => String.eqb c c' && parts_eqb x y && (t =? t')%N && (n =? n')
   | _, _ => false
   end.
 Definition response_eqb (a b : response) : bool :=
-  (r_status a =? r_status b)%N && ocr_eqb (r_cr a) (r_cr b) && oz_eqb (r_cl a) (r_cl b) &&
-  body_eqb (r_body a) (r_body b).
+  (r_status a =? r_status b)%N && String.eqb (r_ct a) (r_ct b) && ocr_eqb (r_cr a) (r_cr b) &&
+  oz_eqb (r_cl a) (r_cl b) && body_eqb (r_body a) (r_body b).
+Definition range_eqb (a b : range) : bool := (fst a =? fst b) && (snd a =? snd b).
+Fixpoint ranges_eqb (a b : list range) : bool :=
+  match a, b with
+  | [], [] => true
+  | x :: a', y :: b' => range_eqb x y && ranges_eqb a' b'
+  | _, _ => false
+  end.
 
 (* the (content-range, bytes) pieces a 206 response carries *)
 Definition resp_parts (r : response) : list (crange * blob) :=
   match r_body r with
-  | Multipart ps => ps
+  | Multipart _ ps _ _ => ps
   | Plain b _ => match r_cr r with Some cr => [(cr, b)] | None => [] end
   end.
 Definition expected_parts (d : blob) (rs : list range) : list (crange * blob) :=
   map (fun ra => (content_range ra (blen d), slice d (fst ra) (snd ra))) rs.
 Definition is_multipart (r : response) : bool :=
-  match r_body r with Multipart _ => true | _ => false end.
+  match r_body r with Multipart _ _ _ _ => true | _ => false end.
 Definition no_write_error (r : response) : bool :=
-  match r_body r with Plain _ e => (e =? 0)%N | Multipart _ => true end.
+  match r_body r with Plain _ e => (e =? 0)%N | Multipart _ _ t _ => (t =? 0)%N end.
+(* a multipart body is complete and its Content-Length (when one is sent) is the number of bytes sent *)
+Definition mp_framing_ok (r : response) : bool :=
+  match r_body r with
+  | Multipart _ _ t n => (t =? 0)%N && match r_cl r with Some c => c =? n | None => true end
+  | Plain _ _ => true
+  end.
 
 (* 200 with the complete content *)
 Definition full_200 (d : blob) (r : response) : bool :=
@@ -414,17 +647,18 @@ Definition full_200 (d : blob) (r : response) : bool :=
   ocr_eqb (r_cr r) None.
 
 (* C32 on a structured header: 206 with exactly the requested (satisfiable) ranges in order,
-   416 only when nothing is satisfiable (or a spec is invalid), or 200 with everything *)
+   416 only when nothing is satisfiable (or a spec is invalid: RFC 7233 4.4 allows 416 for a
+   set "rejected due to invalid ranges"), or 200 with everything (a server may ignore Range) *)
 Definition spec_ok (d : blob) (sps : list rspec) (r : response) : bool :=
   let want := ref_ranges sps (blen d) in
   full_200 d r
-  || ((r_status r =? 206)%N && negb (match want with [] => true | _ => false end)
+  || ((r_status r =? 206)%N && negb (is_nil want)
       && parts_eqb (resp_parts r) (expected_parts d want)
       && no_write_error r
-      && (if is_multipart r then true
+      && (if is_multipart r then mp_framing_ok r
           else match want with [w] => oz_eqb (r_cl r) (Some (snd w)) | _ => false end))
   || ((r_status r =? 416)%N
-      && ((match want with [] => true | _ => false end) || existsb spec_invalid sps)).
+      && (is_nil want || existsb spec_invalid sps)).
 
 (* C32 on an arbitrary header string, without reading the header: whatever is sent is
    what the response says it is — 200 complete, 416, or 206 made of non-empty in-bounds
@@ -434,9 +668,9 @@ Definition part_consistent (d : blob) (p : crange * blob) : bool :=
   (0 <=? a) && (a <=? b) && (b <? blen d) && (sz =? blen d) && blob_eqb bytes (slice d a (b - a + 1)).
 Definition self_consistent (d : blob) (r : response) : bool :=
   full_200 d r
-  || ((r_status r =? 206)%N && negb (match resp_parts r with [] => true | _ => false end)
+  || ((r_status r =? 206)%N && negb (is_nil (resp_parts r))
       && forallb (part_consistent d) (resp_parts r) && no_write_error r
-      && (if is_multipart r then true
+      && (if is_multipart r then mp_framing_ok r
           else match r_body r with Plain b _ => oz_eqb (r_cl r) (Some (blen b)) | _ => false end))
   || (r_status r =? 416)%N.
 
@@ -444,27 +678,43 @@ Definition self_consistent (d : blob) (r : response) : bool :=
 Definition head_ok (d : blob) (r : response) : bool :=
   (r_status r =? 200)%N && body_eqb (r_body r) (Plain [] 0) && oz_eqb (r_cl r) (Some (blen d)).
 
+(* the parser alone: what parseRange returns for a header that spells sps *)
+Definition parse_spec_ok (sps : list rspec) (size : Z) (res : option (list range)) : bool :=
+  let want := ref_ranges sps size in
+  match res with
+  | None => is_nil want || existsb spec_invalid sps
+  | Some rs => ranges_eqb rs want
+  end.
+Definition range_in_blob (size : Z) (r : range) : bool :=
+  (0 <=? fst r) && (0 <? snd r) && (fst r + snd r <=? size).
+Definition parse_raw_ok (size : Z) (res : option (list range)) : bool :=
+  match res with None => true | Some rs => forallb (range_in_blob size) rs end.
+
 (* ---- Accept-Encoding per RFC 7231 5.3.4 (absent header counted as "not accepted") ---- *)
 Definition lower (c : ascii) : ascii :=
   let n := nat_of_ascii c in if Nat.leb 65 n && Nat.leb n 90 then ascii_of_nat (n + 32) else c.
 Fixpoint lower_s (s : string) : string :=
   match s with EmptyString => EmptyString | String c s' => String (lower c) (lower_s s') end.
 
-(* qvalue is zero: "0" ["." 0*3("0")] *)
+(* qvalue is zero: "0" [ "." 0*3("0") ] *)
 Definition q_is_zero (v : string) : bool :=
   String.eqb v "0" || String.eqb v "0." || String.eqb v "0.0" || String.eqb v "0.00" || String.eqb v "0.000".
 
-(* one element "coding [; q=v]" -> (coding, q>0) *)
+(* the weight among the parameters "; name=value": the first one named q (case-insensitive) *)
+Fixpoint q_of_params (ps : list string) : bool :=
+  match ps with
+  | [] => true
+  | p :: rest =>
+      match cut_at "="%char p with
+      | Some (k, v) => if String.eqb (lower_s (trim k)) "q" then negb (q_is_zero (trim v)) else q_of_params rest
+      | None => q_of_params rest
+      end
+  end.
+(* one element "coding *( ; param )" -> (coding, q>0) *)
 Definition ae_item (it : string) : string * bool :=
-  match cut_at c_semi it with
-  | None => (lower_s (trim it), true)
-  | Some (c, p) =>
-      let p := lower_s (trim p) in
-      (lower_s (trim c),
-       match strip_prefix "q=" p with
-       | Some v => negb (q_is_zero (trim v))
-       | None => true
-       end)
+  match split_on c_semi it with
+  | [] => (EmptyString, true)
+  | c :: ps => (lower_s (trim c), q_of_params ps)
   end.
 Definition ae_items (ae : string) : list (string * bool) := map ae_item (split_on c_comma ae).
 
@@ -490,6 +740,10 @@ Definition gzip_ok (s : stored) (ae : string) (enc : bool) : bool :=
 Definition representation (s : stored) (enc : bool) : blob :=
   if enc then st_data s
   else if st_flag s && is_gzipped (st_data s) then st_plain s else st_data s.
+(* the representation exists: either the stored stream itself is served, or it decompressed
+   without error (otherwise the only correct answer is an error status) *)
+Definition rep_ok (s : stored) (enc : bool) : bool :=
+  enc || negb (st_flag s && is_gzipped (st_data s)) || st_gzok s.
 
 (* ------------------------------------------------------------------ *)
 (* Triggers of the known findings (decidable, on the input only) *)
@@ -497,16 +751,20 @@ Definition representation (s : stored) (enc : bool) : blob :=
 Definition has_negative_length (rs : list range) : bool := existsb (fun r => snd r <? 0) rs.
 Definition has_zero_length (rs : list range) : bool := existsb (fun r => snd r =? 0) rs.
 
-(* k=0 empty spec list; k=1 oversize sum; k=2 zero-length range; k=3 negative suffix *)
+(* k=1 oversize sum (empty 200); k=0 empty spec list (empty 200); then, only when the answer is a 206:
+   k=3 negative suffix length; k=2 zero-length range.  A multi-range request with a start
+   beyond the size is answered 416 whatever else it holds: no trigger. *)
 Definition trig_parsed (pr : option (list range)) (size : Z) : option N :=
   match pr with
   | None => None
   | Some rs =>
-      if has_negative_length rs then Some 3%N
-      else if sum_ranges rs >? size then Some 1%N
+      if sum_ranges rs >? size then Some 1%N
       else match rs with
            | [] => Some 0%N
-           | _ => if has_zero_length rs then Some 2%N else None
+           | [r] => if snd r <? 0 then Some 3%N else if snd r =? 0 then Some 2%N else None
+           | _ => if existsb (fun ra : range => fst ra >? size) rs then None
+                  else if has_negative_length rs then Some 3%N
+                  else if has_zero_length rs then Some 2%N else None
            end
   end.
 
@@ -520,11 +778,47 @@ Definition spec_start_beyond (size : Z) (sp : rspec) : bool :=
   end.
 Definition trig_mixed (sps : list rspec) (size : Z) : bool :=
   existsb (spec_start_beyond size) sps && negb (existsb spec_invalid sps) &&
-  negb (match ref_ranges sps size with [] => true | _ => false end).
+  negb (is_nil (ref_ranges sps size)).
+(* k=6: a number above int64 max (last-byte-pos, suffix length) turns the request into 416
+   "invalid range" although the RFC clamps it and something is satisfiable *)
+Definition trig_big (sps : list rspec) (size : Z) : bool :=
+  existsb spec_big sps && negb (existsb spec_invalid sps) &&
+  negb (is_nil (ref_ranges sps size)).
 
 Definition trig_specs (sps : list rspec) (size : Z) : option N :=
-  if trig_mixed sps size then Some 4%N else trig_parsed (parse_specs sps size) size.
+  if trig_mixed sps size then Some 4%N
+  else if trig_big sps size then Some 6%N
+  else trig_parsed (parse_specs sps size) size.
+
+(* the parser alone (no response): k=4, k=6, k=2 / k=3 *)
+Definition trig_parse_specs (sps : list rspec) (size : Z) : option N :=
+  if trig_mixed sps size then Some 4%N
+  else if trig_big sps size then Some 6%N
+  else match parse_specs sps size with
+       | Some rs => if has_zero_length rs then Some 2%N else None
+       | None => None
+       end.
+Definition trig_parse_raw (pr : option (list range)) : option N :=
+  match pr with
+  | Some rs => if has_negative_length rs then Some 3%N else if has_zero_length rs then Some 2%N else None
+  | None => None
+  end.
 
 (* k=5: "gzip" occurs in Accept-Encoding but gzip is not acceptable (q=0, or part of another token) *)
 Definition trig_gzip (s : stored) (ae : string) : bool :=
   st_flag s && is_gzipped (st_data s) && accept_has_gzip ae && negb (ref_accepts_gzip ae).
+(* k=7: the stored gzip stream must be decompressed for this client and is corrupt *)
+Definition trig_corrupt (s : stored) (ae : string) : bool :=
+  st_flag s && is_gzipped (st_data s) && negb (accept_has_gzip ae) && negb (st_gzok s).
+
+(* the arithmetic of the multipart framing does not leave int64 (number of ranges x blob size
+   + framing below 2^63): hypothesis of the theorems about multi-range answers *)
+Definition sum_lens (rs : list range) : Z := fold_right (fun r acc => snd r + acc) 0 rs.
+Definition mp_fits (size ctlen : Z) (rs : list range) : bool :=
+  sum_lens rs + mp_overhead size ctlen rs <=? int64_max.
+(* the same hypothesis on whatever the header text parses to *)
+Definition mp_fits_hdr (hdr : string) (d : blob) (ct : string) : bool :=
+  match parse_range hdr (blen d) with
+  | Some rs => mp_fits (blen d) (slen ct) rs
+  | None => true
+  end.
